@@ -116,6 +116,9 @@ def judge_validate(scn):
     base = refmodel.block(posbytes(0, scn["payload_len"]))
     fault = scn.get("fault")
     image = apply_fault(base, fault) if fault else base
+    for f2 in scn.get("faults2") or []:
+        image = apply_fault(image, f2)
+        fault = scn["faults2"]
     res = run_validate(image)
     fails = []
     if res[0] == "foreign":
@@ -226,7 +229,7 @@ def plan(tier, seed, wave):
         if tier == "thorough":
             tasks.append({"fam": "validate", "blocks": 130, "tier": tier})
         tasks.append({"fam": "inverse", "tier": tier})
-        for B in ((70, 140) if tier == "quick" else (66, 70, 100, 140, 300)):
+        for B in ((70, 140, 4200) if tier == "quick" else (66, 70, 100, 140, 300, 4200, 9000)):
             tasks.append({"fam": "stream", "blocks": B, "tier": tier})
         tasks.append({"fam": "bigreads", "tier": tier})
     if tier == "quick":
@@ -316,6 +319,19 @@ def run_task(task):
                         c["fault:substitute_trailer_byte"] += 1
                     for fl in fails:
                         _fail(part, fl, scn)
+        # both trailer bytes replaced together (a "translated" trailer such as 20 20, 00 00, F0 F0 ...)
+        for b in range(min(B, 4)):
+            for val in range(256):
+                for v2 in ((val,) if val != 0x40 else (0x41,)):
+                    scn = {"kind": "unblock_validate", "blocks": B, "payload_len": plen,
+                           "faults2": [{"kind": "substitute", "off": b * 1014 + 1012, "val": val},
+                                       {"kind": "substitute", "off": b * 1014 + 1013, "val": v2}]}
+                    fails = judge_validate(scn)
+                    part["evals"] += 1
+                    part["nontrivial"] += 1
+                    c["fault:substitute_both_trailer_bytes"] += 1
+                    for fl in fails:
+                        _fail(part, fl, scn)
         part["runs"] += 1
         part["samples"].append({"kind": "unblock_validate", "blocks": B, "payload_len": plen,
                                 "fault": {"kind": "substitute", "off": 1012, "val": 0}})
@@ -325,7 +341,7 @@ def run_task(task):
         B = task["blocks"]
         length = B * 1012 - 5
         image = make_image("ref", length)
-        for step in (4, 500, 1012, 1013, 3000, 6000):
+        for step in ((4, 500, 1012, 1013, 3000, 6000) if B <= 300 else (1012, 6000)):
             nreads = (B * 1012) // step + 2
             reads = [step] * nreads + [None]
             fails, f = judge_reads(image, reads)
